@@ -6,8 +6,213 @@
 //! path, general path and per-element interp must agree in every bit. Under Miri the same
 //! program is the UB oracle.
 
+use vh::c19::Inst;
+use vh::ndarray::{Array1, Array2, Array3, ArrayBase, ArrayViewMut, Data, Dimension, Ix1, RemoveAxis};
+use vh::ndarray_interp::interp1d::{Interp1D, Interp1DBuilder, Interp1DStrategy, Interp1DStrategyBuilder};
+use vh::ndarray_interp::interp2d::{Interp2D, Interp2DBuilder, Interp2DStrategy, Interp2DStrategyBuilder};
+use vh::ndarray_interp::{BuilderError, InterpolateError};
+use vh::outcome::guard;
 use vh::report::*;
 use vh::*;
+
+/// A user-defined strategy that implements only the required trait methods: the value is a
+/// known, x/y-asymmetric function of the query and the lane index. The fast path must be
+/// unobservable for *any* strategy, not only for the built-in ones.
+#[derive(Debug, Clone)]
+struct Probe;
+
+impl<Sd, Sx, D> Interp1DStrategyBuilder<Sd, Sx, D> for Probe
+where
+    Sd: Data<Elem = f64>,
+    Sx: Data<Elem = f64>,
+    D: Dimension + RemoveAxis,
+{
+    const MINIMUM_DATA_LENGHT: usize = 1;
+    type FinishedStrat = Probe;
+    fn build<Sx2: Data<Elem = f64>>(self, _x: &ArrayBase<Sx2, Ix1>, _data: &ArrayBase<Sd, D>) -> Result<Probe, BuilderError> {
+        Ok(self)
+    }
+}
+
+impl<Sd, Sx, D> Interp1DStrategy<Sd, Sx, D> for Probe
+where
+    Sd: Data<Elem = f64>,
+    Sx: Data<Elem = f64>,
+    D: Dimension + RemoveAxis,
+{
+    fn interp_into(&self, _i: &Interp1D<Sd, Sx, D, Self>, mut target: ArrayViewMut<'_, f64, D::Smaller>, x: f64) -> Result<(), InterpolateError> {
+        for (l, t) in target.iter_mut().enumerate() {
+            *t = probe_value(x, 0.0, l);
+        }
+        Ok(())
+    }
+}
+
+impl<Sd, Sx, Sy, D> Interp2DStrategyBuilder<Sd, Sx, Sy, D> for Probe
+where
+    Sd: Data<Elem = f64>,
+    Sx: Data<Elem = f64>,
+    Sy: Data<Elem = f64>,
+    D: Dimension + RemoveAxis,
+    D::Smaller: RemoveAxis,
+{
+    const MINIMUM_DATA_LENGHT: usize = 1;
+    type FinishedStrat = Probe;
+    fn build(self, _x: &ArrayBase<Sx, Ix1>, _y: &ArrayBase<Sy, Ix1>, _data: &ArrayBase<Sd, D>) -> Result<Probe, BuilderError> {
+        Ok(self)
+    }
+}
+
+impl<Sd, Sx, Sy, D> Interp2DStrategy<Sd, Sx, Sy, D> for Probe
+where
+    Sd: Data<Elem = f64>,
+    Sx: Data<Elem = f64>,
+    Sy: Data<Elem = f64>,
+    D: Dimension + RemoveAxis,
+    D::Smaller: RemoveAxis,
+{
+    fn interp_into(
+        &self,
+        _i: &Interp2D<Sd, Sx, Sy, D, Self>,
+        mut target: ArrayViewMut<'_, f64, <D::Smaller as Dimension>::Smaller>,
+        x: f64,
+        y: f64,
+    ) -> Result<(), InterpolateError> {
+        for (l, t) in target.iter_mut().enumerate() {
+            *t = probe_value(x, y, l);
+        }
+        Ok(())
+    }
+}
+
+fn probe_value(x: f64, y: f64, lane: usize) -> f64 {
+    x * 4.0 + y * 1024.0 + lane as f64 / 8.0
+}
+
+const PQX: [f64; 3] = [0.5, 1.75, 1.0];
+const PQY: [f64; 3] = [1.25, 0.25, 2.0];
+
+macro_rules! probe1 {
+    ($ev:expr, $id:expr, $name:expr, $build:expr) => {{
+        let mut inst = Inst { ev: $ev, name: $name.to_string(), id: $id };
+        inst.begin();
+        match guard(|| $build) {
+            Err(p) => inst.failed("build", &p),
+            Ok(interp) => {
+                let q = Array1::from(PQX.to_vec());
+                let bits = |a: &mut dyn Iterator<Item = f64>| -> Vec<u64> { a.map(|v| v.to_bits()).collect() };
+                let fast = guard(|| interp.interp_array(&q).unwrap());
+                inst.casts("interp_array(Ix1)", 2);
+                let fast_view = guard(|| interp.interp_array(&q.view()).unwrap());
+                inst.casts("interp_array(Ix1 view)", 2);
+                let gd = guard(|| interp.interp_array(&q.clone().into_dyn()).unwrap());
+                inst.casts("interp_array(IxDyn rank 1)", 0);
+                let g2 = guard(|| interp.interp_array(&q.clone().into_shape_with_order((3, 1)).unwrap()).unwrap());
+                inst.casts("interp_array(Ix2)", 0);
+                let singles = guard(|| {
+                    let mut v = Vec::new();
+                    for &x in q.iter() {
+                        v.extend(interp.interp(x).unwrap().iter().copied());
+                    }
+                    v
+                });
+                match (fast, fast_view, gd, g2, singles) {
+                    (Ok(f), Ok(fv), Ok(gd), Ok(g2), Ok(s)) => {
+                        let fb = bits(&mut f.iter().copied());
+                        let lanes = fb.len() / 3;
+                        let want: Vec<u64> = (0..3).flat_map(|k| (0..lanes).map(move |l| probe_value(PQX[k], 0.0, l).to_bits())).collect();
+                        inst.compare("Ix1 vs the strategy's own function", &fb, &want);
+                        inst.compare("Ix1 vs Ix1 view", &fb, &bits(&mut fv.iter().copied()));
+                        inst.compare("Ix1 vs IxDyn(rank 1)", &fb, &bits(&mut gd.iter().copied()));
+                        inst.compare("Ix1 vs Ix2 (n,1)", &fb, &bits(&mut g2.iter().copied()));
+                        inst.compare("Ix1 vs per-element interp", &fb, &bits(&mut s.iter().copied()));
+                    }
+                    (a, b, c, d, e) => {
+                        for (n, r) in [("Ix1", a.err()), ("Ix1 view", b.err()), ("IxDyn", c.err()), ("Ix2", d.err()), ("interp", e.err())] {
+                            if let Some(p) = r {
+                                inst.failed(n, &p);
+                            }
+                        }
+                    }
+                }
+            }
+        }
+    }};
+}
+
+macro_rules! probe2 {
+    ($ev:expr, $id:expr, $name:expr, $build:expr) => {{
+        let mut inst = Inst { ev: $ev, name: $name.to_string(), id: $id };
+        inst.begin();
+        match guard(|| $build) {
+            Err(p) => inst.failed("build", &p),
+            Ok(interp) => {
+                let (qx, qy) = (Array1::from(PQX.to_vec()), Array1::from(PQY.to_vec()));
+                let bits = |a: &mut dyn Iterator<Item = f64>| -> Vec<u64> { a.map(|v| v.to_bits()).collect() };
+                let fast = guard(|| interp.interp_array(&qx, &qy).unwrap());
+                inst.casts("interp_array(Ix1)", 3);
+                let fast_view = guard(|| interp.interp_array(&qx.view(), &qy).unwrap());
+                inst.casts("interp_array(Ix1 view, Ix1 owned)", 3);
+                let gd = guard(|| interp.interp_array(&qx.clone().into_dyn(), &qy.clone().into_dyn()).unwrap());
+                inst.casts("interp_array(IxDyn rank 1)", 0);
+                let g2 = guard(|| {
+                    interp
+                        .interp_array(&qx.clone().into_shape_with_order((3, 1)).unwrap(), &qy.clone().into_shape_with_order((3, 1)).unwrap())
+                        .unwrap()
+                });
+                inst.casts("interp_array(Ix2)", 0);
+                let singles = guard(|| {
+                    let mut v = Vec::new();
+                    for k in 0..3 {
+                        v.extend(interp.interp(qx[k], qy[k]).unwrap().iter().copied());
+                    }
+                    v
+                });
+                match (fast, fast_view, gd, g2, singles) {
+                    (Ok(f), Ok(fv), Ok(gd), Ok(g2), Ok(s)) => {
+                        let fb = bits(&mut f.iter().copied());
+                        let lanes = fb.len() / 3;
+                        let want: Vec<u64> = (0..3).flat_map(|k| (0..lanes).map(move |l| probe_value(PQX[k], PQY[k], l).to_bits())).collect();
+                        inst.compare("Ix1 vs the strategy's own function", &fb, &want);
+                        inst.compare("Ix1 vs Ix1 view/owned", &fb, &bits(&mut fv.iter().copied()));
+                        inst.compare("Ix1 vs IxDyn(rank 1)", &fb, &bits(&mut gd.iter().copied()));
+                        inst.compare("Ix1 vs Ix2 (n,1)", &fb, &bits(&mut g2.iter().copied()));
+                        inst.compare("Ix1 vs per-element interp", &fb, &bits(&mut s.iter().copied()));
+                    }
+                    (a, b, c, d, e) => {
+                        for (n, r) in [("Ix1", a.err()), ("Ix1 view", b.err()), ("IxDyn", c.err()), ("Ix2", d.err()), ("interp", e.err())] {
+                            if let Some(p) = r {
+                                inst.failed(n, &p);
+                            }
+                        }
+                    }
+                }
+            }
+        }
+    }};
+}
+
+/// the fast path with a user-defined strategy (1-D and 2-D; static and dynamic data
+/// dimensions; owned and view storage)
+fn user_strategies(ev: &mut Ev) {
+    let x = Array1::from(vec![0.0, 1.0, 2.0]);
+    let d1 = Array1::from(vec![1.0, 2.0, 4.0]);
+    let d2 = Array2::from_shape_fn((3, 2), |(i, j)| (i * 2 + j) as f64);
+    let d3 = Array3::from_shape_fn((3, 3, 2), |(i, j, k)| (i * 6 + j * 2 + k) as f64);
+    let g2 = Array2::from_shape_fn((3, 3), |(i, j)| (i * 3 + j) as f64);
+    let id = 9_000_000u64;
+    probe1!(ev, id + 1, "Interp1D<f64, Ix1, owned, user strategy>", Interp1DBuilder::new(d1.clone()).x(x.clone()).strategy(Probe).build().unwrap());
+    probe1!(ev, id + 2, "Interp1D<f64, Ix2, owned, user strategy>", Interp1DBuilder::new(d2.clone()).x(x.clone()).strategy(Probe).build().unwrap());
+    probe1!(ev, id + 3, "Interp1D<f64, Ix2, view, user strategy>", Interp1DBuilder::new(d2.view()).x(x.view()).strategy(Probe).build().unwrap());
+    probe1!(ev, id + 4, "Interp1D<f64, IxDyn, owned, user strategy>", Interp1DBuilder::new(d2.clone().into_dyn()).x(x.clone()).strategy(Probe).build().unwrap());
+    probe1!(ev, id + 5, "Interp1D<f64, Ix3, shared, user strategy>", Interp1DBuilder::new(d3.clone().into_shared()).x(x.clone().into_shared()).strategy(Probe).build().unwrap());
+    probe2!(ev, id + 6, "Interp2D<f64, Ix2, owned, user strategy>", Interp2DBuilder::new(g2.clone()).x(x.clone()).y(x.clone()).strategy(Probe).build().unwrap());
+    probe2!(ev, id + 7, "Interp2D<f64, Ix3, owned, user strategy>", Interp2DBuilder::new(d3.clone()).x(x.clone()).y(x.clone()).strategy(Probe).build().unwrap());
+    probe2!(ev, id + 8, "Interp2D<f64, Ix3, view, user strategy>", Interp2DBuilder::new(d3.view()).x(x.view()).y(x.view()).strategy(Probe).build().unwrap());
+    probe2!(ev, id + 9, "Interp2D<f64, IxDyn, owned, user strategy>", Interp2DBuilder::new(d3.clone().into_dyn()).x(x.clone()).y(x.clone()).strategy(Probe).build().unwrap());
+    probe2!(ev, id + 10, "Interp2D<f64, IxDyn, shared, user strategy>", Interp2DBuilder::new(d3.clone().into_dyn().into_shared()).x(x.clone().into_shared()).y(x.clone().into_shared()).strategy(Probe).build().unwrap());
+    ev.add("user_strategy_instantiations", 10);
+}
 
 fn main() {
     let args = Args::parse("C19");
@@ -28,6 +233,9 @@ fn main() {
             "none" => {}
             other => panic!("unknown element type {other}"),
         }
+    }
+    if args.shard == 0 && !elems.iter().any(|e| e == "none") {
+        user_strategies(&mut ev);
     }
     let insts: Vec<String> = ev.hist.get("instantiation").map(|h| h.keys().cloned().collect()).unwrap_or_default();
     for name in insts.iter().step_by(insts.len() / 10 + 1) {
